@@ -1,6 +1,6 @@
 (* Lemmas for C10: partition of the covered range by the intervals of ONE edge vector, for an
    abstract boolean order (only transitivity / totality are assumed, as stated per lemma). *)
-From Coq Require Import List Bool Arith Lia Permutation.
+From Coq Require Import List Bool Arith Lia Permutation PrimFloat.
 From V.model Require Import Intervals.
 Import ListNotations.
 
@@ -369,3 +369,18 @@ Section Combined.
   Proof. intros Hl Hj H1 H2. rewrite (rows_memberships T leb RightOpen false (a :: e) refs data j d0 Hl Hj).
     apply right_open_at_least_one; auto. Qed.
 End Combined.
+
+(* the Width slicer's executable binary64 entry point, with nothing dropped, is rows_of over its edge vector *)
+Section WidthFloat.
+  Lemma intervals_snoc_length {T} (l : list T) x : l <> [] -> length (intervals T (l ++ [x])) = length l.
+  Proof. intros H. rewrite intervals_length, app_length. cbn. destruct l; [congruence|cbn; lia]. Qed.
+  Lemma width_refs_length r starts w : length (width_refs r starts w) = length starts.
+  Proof. destruct r; cbn; rewrite ?map_length; reflexivity. Qed.
+  Lemma width_slice_nodrop width r ro vmin vmax data :
+    width_slice width r ro vmin vmax 0 0 data =
+    let dmin := match vmin with Some v => v | None => 0%float end in
+    let dmax := match vmax with Some v => v | None => FloatBits.fmax data end in
+    Some (rows_of PrimFloat.float fleb (if ro then RightOpen else LeftOpen) false (snd (width_edges dmin dmax width))
+                  (width_refs r (fst (width_edges dmin dmax width)) width) data).
+  Proof. unfold width_slice. cbn zeta. unfold width_edges. cbn [fst snd]. rewrite drop_zero. reflexivity. Qed.
+End WidthFloat.
